@@ -258,7 +258,7 @@ def run(ck):
         conv = (lambda a: torch.tensor(a)) if as_tensor else (lambda a: a.copy())
         args = [conv(X), conv(y), conv(Xv), conv(yv)]
         Q = conv(xr.make_X('random', 9, d, nr))
-        desc = dict(i=i, kernel=kern, task=task, tensors=as_tensor, n_threads=n_threads, soft=soft, n=n, L=L, split_method=(None if i % 3 == 0 else ['pca', 'random_pca', 'linear', 'rf_criterion', 'random_agop_on_subset', 'top_pc_agop_on_subset'][(i // 3) % 6]), seed=ck.seed)
+        desc = dict(i=i, kernel=kern, task=task, tensors=as_tensor, n_threads=n_threads, caller_threads_before_calls=[None, 1, 4, 3, 2][i % 5], soft=soft, n=n, L=L, split_method=(None if i % 3 == 0 else ['pca', 'random_pca', 'linear', 'rf_criterion', 'random_agop_on_subset', 'top_pc_agop_on_subset'][(i // 3) % 6]), seed=ck.seed)
         # absent / set / defined but empty (`export VAR=` in a job script) / already mentioning the very option the library overrides (alone, or after another option)
         init_env = [None, 'max_split_size_mb:64', '', 'expandable_segments:False', 'max_split_size_mb:128,expandable_segments:True'][i % 5]
         if init_env is None:
@@ -266,6 +266,9 @@ def run(ck):
         else:
             os.environ[ENV] = init_env
         t0 = torch.get_num_threads()
+        # the caller changes the process-wide thread count between calls (after the library was imported): whatever it is just before a call, it is that after the call
+        caller_threads = [t0, 1, 4, 3, 2][i % 5]
+        torch.set_num_threads(caller_threads)
         probes = []
         def cb(iteration):
             probes.append((torch.get_num_threads(), os.environ.get(ENV)))
